@@ -838,3 +838,22 @@ V("from_points in a centred frame: the shift is subtracted from points at infini
   extra=[_fp_centred("pts - t")[1]])
 V("twin: from_points in a centred frame, the shift scaled by the homogeneous coordinate", "C13", CURVE, _FP_OLD, _fp_centred("pts - pts[:, -1:] * t")[0][2], "silent",
   extra=[_fp_centred("pts - t")[1]])
+
+
+# ------------------------------------------------------------------------------------------------ the decomposition itself (E19.comp)
+_COMP_NEW = ("            pairs = np.array([np.delete(np.arange(n), i) for i in combinations(range(n), n - 2)])\n"
+             "            minors = det(self.array[..., pairs[:, None, :, None], pairs[None, :, None, :]])\n"
+             "            diagonal = np.diagonal(minors, axis1=-2, axis2=-1)\n"
+             "            i = np.argmax(np.abs(diagonal), axis=-1)\n"
+             "            beta = csqrt(-diagonal[(*indices, i)])\n"
+             "            p = -minors[(*indices, slice(None), i)] / np.where(beta != 0, beta, -1)[..., None]\n")
+_COMP_OLD = ("            ind = np.indices((n, n))\n            ind = np.stack(\n"
+             "                [np.delete(np.delete(ind, i, axis=1), i, axis=2) for i in combinations(range(n), n - 2)], axis=1\n            )\n"
+             "            minors = det(self.array[..., ind[0], ind[1]])\n            p = csqrt(-minors)  # type: ignore[arg-type]\n")
+V("D27 regression: the Pluecker coordinates of a pair of planes as square roots of the principal minors", "C15", CURVE, _COMP_NEW, _COMP_OLD, "E19.comp", "QuadricTensor.components")
+V("components of a pair of lines from the square roots of the diagonal of the adjugate", "C15", CURVE,
+  "            p = -b[(*indices, slice(None), i)] / np.where(beta != 0, beta, -1)[..., None]\n\n        else:",
+  "            p = csqrt(-np.diagonal(b, axis1=-2, axis2=-1))\n\n        else:", "E19.comp", "QuadricTensor.components")
+V("components: the skew symmetric correction subtracted and the column taken for both components", "C15", CURVE,
+  "        p, q = t[indices + i[:1]], t[(*indices, slice(None), i[1])]", "        p, q = t[(*indices, slice(None), i[0])], t[(*indices, slice(None), i[1])]", "E19.comp", "QuadricTensor.components")
+V("twin: components with the correction subtracted", "C15", CURVE, "        t = self.array + m\n", "        t = self.array - m\n", "silent")
